@@ -14,10 +14,10 @@ def matmul(*operands):
 
     This implementation is faster compared to standard multiplication via the @ operator.
     """
-    if any(isinstance(o[0, 0], CObs) for o in operands):
+    if any(isinstance(entry, CObs) for o in operands for entry in np.asarray(o).ravel()):
         extended_operands = []
         for op in operands:
-            tmp = np.vectorize(lambda x: (np.real(x), np.imag(x)))(op)
+            tmp = np.vectorize(lambda x: (np.real(x), np.imag(x)), otypes=[object, object])(op)
             extended_operands.append(tmp[0])
             extended_operands.append(tmp[1])
 
